@@ -8,6 +8,36 @@ ENCS = {"utf8": "utf-8", "ascii": "ascii", "latin1": "latin-1"}
 MODES = {"curtsies": ev.Keynames.CURTSIES, "curses": ev.Keynames.CURSES, "bytes": ev.Keynames.BYTES}
 B = [bytes([i]) for i in range(256)]
 
+def alias_spellings():
+    """every spelling under which CPython's codec registry resolves to one of the three codecs the property names:
+    the aliases of encodings.aliases plus case / hyphen / underscore variants and the C-locale name.
+    -> [(family key of ENCS, spelling)] (deterministic order), each verified with codecs.lookup"""
+    import encodings.aliases
+    fam = {"ascii": "ascii", "utf_8": "utf8", "latin_1": "latin1"}
+    out = []
+    for target, key in fam.items():
+        base = [target] + sorted(a for a, t in encodings.aliases.aliases.items() if t == target)
+        if key == "ascii":
+            base += ["ANSI_X3.4-1968", "us-ascii", "iso646-us"]
+        if key == "utf8":
+            base += ["utf-8", "UTF8"]
+        if key == "latin1":
+            base += ["latin-1", "iso-8859-1", "ISO8859-1"]
+        seen = set()
+        for b in base:
+            for v in (b, b.upper(), b.replace("_", "-"), b.replace("_", "-").upper(), b.capitalize()):
+                if v in seen or v == ENCS[key]:
+                    continue
+                try:
+                    if codecs.lookup(v).name != codecs.lookup(ENCS[key]).name:
+                        continue
+                except LookupError:
+                    continue
+                seen.add(v)
+                out.append((key, v))
+    return out
+
+
 TABLE_KEYS = sorted(set(ev.CURTSIES_NAMES) | set(ev.CURSES_NAMES))
 D43SET = frozenset([0xc0, 0xc1] + list(range(0xf5, 0xfe)))     # one-byte keys the code mistakes for UTF-8 lead bytes
 LEADS = range(0xc2, 0xf5)                                        # RFC 3629 lead bytes
@@ -112,7 +142,7 @@ def e2e_segment(buf, enc, mode):
     inp = cinput.Input(in_stream=None, keynames=MODES[mode], paste_threshold=None, sigint_event=False)
     inp.unprocessed_bytes = [B[b] for b in buf]
     saved = cinput.getpreferredencoding
-    cinput.getpreferredencoding = lambda: ENCS[enc]
+    cinput.getpreferredencoding = lambda: ENCS.get(enc, enc)
     out = []
     try:
         while inp.unprocessed_bytes:
